@@ -21,16 +21,30 @@ def run(chk):
     chk.rule("OFFSET.cleanup", "clean-up union: Union with Negative iff paths reversed else Positive, into the tree iff requested, "
              "ReverseSolution(reverse_solution_ != paths_reversed), PreserveCollinear(preserve_collinear_) - all 16 cells")
     chk.rule("LOOP", "nothing written while offsetting one group is read while offsetting the next (several groups in one ClipperOffset)")
+    chk.rule("GROUP.strip-closed", "Group::Group strips a closing vertex (last == first) exactly for EndType::Polygon and EndType::Joined")
+    chk.rule("TARGET.set", "solution and solution_tree are both written by every ClipperOffset::Execute overload before ExecuteInternal reads them")
     chk.rule("OFFSET.sign", "|delta| < 0.5 copies the inputs; group_delta_ = -delta iff a Polygon group is reversed, |delta| for open paths; "
              "a group is reversed iff its lowest path has negative area")
     for cfg in cfgs:
         db = AstDB(cfg)
         e12.offset_cleanup_table(db, chk, cfg)
         e12.offset_sign_rules(db, chk, cfg)
+        e12.group_strip_rule(db, chk, cfg)
         # groups are offset independently of each other (several groups in one ClipperOffset)
         eng = e2.E2(db, chk, cfg, ["ClipperOffset"])
         OFF, why = offset_table(db)
         e2.check_classification(eng, OFF, chk, "ClipperOffset")
+        # every Execute overload names its own output target before the work starts (a Paths64 call after a PolyTree64 call on the same
+        # object must not send its result to the tree of the earlier call): def-before-use of the two target members only - the other
+        # scratch members are decided under C12
+        TGT = dict(OFF)
+        TGT["dbu"] = {"solution": 1, "solution_tree": 1}
+        TGT["allow"] = dict(OFF["allow"])
+        for k in OFF["dbu"]:
+            if k not in TGT["dbu"]:
+                TGT["allow"][k] = "decided under C12"
+        execs = db.find("ClipperOffset::Execute")
+        e2.rule_dbu(eng, chk, cfg, execs, TGT, [{"deltaCallback64_": False}, {"deltaCallback64_": True}], rule="TARGET.set")
         ei = db.one("ClipperOffset::ExecuteInternal")
         gl = e2.find_loops(ei, lambda l: "groups_" in e2.loop_header_text(l) and any(
             x.get("kind") == "MemberExpr" and x.get("name") == "DoGroupOffset" for x in walk(l)))
